@@ -1705,7 +1705,7 @@ def run(chk):
     cases += hash_cases(chk)
     chk.exhaustive = True
     check_cases(chk, cases)
-    n = 4000 if quick else 40000
+    n = 3000 if quick else 40000
     while n > 0 and len(chk.violations) < 20:
         k = min(n, 4000)
         check_cases(chk, random_cases(chk, k))
